@@ -42,6 +42,7 @@ pub fn render_ty_in(p: &GProg, t: &Ty, layout: Option<&Layout>, cur: usize, used
         Ty::Unit => "unit".into(),
         Ty::Bool => "bool".into(),
         Ty::Int(k) => k.name().into(),
+        Ty::Float(f) => if *f { "float32".into() } else { "float64".into() },
         Ty::Str => "string".into(),
         Ty::Tuple(ts) => {
             let parts: Vec<String> = ts.iter().map(|t| render_ty_in(p, t, layout, cur, used)).collect();
@@ -389,6 +390,9 @@ impl<'a> Renderer<'a> {
         match e {
             Expr::Unit => self.out.push_str("()"),
             Expr::Bool(b) => self.out.push_str(if *b { "true" } else { "false" }),
+            Expr::Float(f, v) => {
+                self.out.push_str(&format!("{:?}{}", v, if *f { "f32" } else { "f64" }));
+            }
             Expr::Int(k, v, suffixed) => {
                 if *suffixed {
                     self.out.push_str(&format!("{}{}", v, k.suffix()));
